@@ -64,6 +64,8 @@ type Factory struct {
 	vars  []*Term
 	varBy map[string]*Term
 	ub    map[*Term]uint64 // unsigned upper bounds asserted on the current path
+	consts map[constKey]*Term
+	bytes  [256]*Term
 	nonneg map[*Term]bool
 	pendUB map[*Term]uint64
 }
@@ -112,14 +114,30 @@ func (f *Factory) mk(op string, sort Sort, p1, p2 int, args ...*Term) *Term {
 
 func (f *Factory) Const(w int, v uint64) *Term {
 	v &= mask(w)
-	k := "c|" + strconv.Itoa(w) + "|" + strconv.FormatUint(v, 16)
-	if t, ok := f.tab[k]; ok {
+	if w == 8 {
+		if t := f.bytes[v]; t != nil {
+			return t
+		}
+	}
+	if f.consts == nil {
+		f.consts = map[constKey]*Term{}
+	}
+	k := constKey{w, v}
+	if t, ok := f.consts[k]; ok {
 		return t
 	}
 	t := &Term{id: f.next, op: "const", sort: BV(w), konst: true, cv: v, f: f}
 	f.next++
-	f.tab[k] = t
+	f.consts[k] = t
+	if w == 8 {
+		f.bytes[v] = t
+	}
 	return t
+}
+
+type constKey struct {
+	w int
+	v uint64
 }
 
 func (f *Factory) Bool(b bool) *Term {
